@@ -29,7 +29,9 @@ type Opts struct {
 	CacheColdDuration time.Duration
 	CacheMaxSize      uint64
 	MaxIndexLogSize   int64
-	Tweak             func(o *tsdb.EngineOptions)
+	// WALSegmentSize > 0 makes the WAL roll its segment file at that many bytes (default 10 MiB)
+	WALSegmentSize int
+	Tweak          func(o *tsdb.EngineOptions)
 }
 
 type Shard struct {
@@ -103,6 +105,9 @@ func (s *Shard) open() error {
 		return err
 	}
 	s.Sh, s.SFile = sh, sf
+	if s.Opt.WALSegmentSize > 0 && !s.Opt.NoWAL {
+		s.Eng().WAL.SegmentSize = s.Opt.WALSegmentSize // nothing is writing yet
+	}
 	return nil
 }
 
